@@ -5,9 +5,10 @@
 (* nil, empty slice, wrong struct, pointer, untypable slice} written to    *)
 (* declared and undeclared fields through a direct route, a non-symbol     *)
 (* key, a hop through a struct field and a hop through a pointer field;    *)
-(* construction, decoding (with and without key order), whole-instance     *)
-(* assignment; redeclaration of both structs in between.  All histories    *)
-(* up to MaxSteps.                                                         *)
+(* construction, decoding (with and without key order), round trips,       *)
+(* pointers kept in a variable (writes and whole-instance assignment       *)
+(* through them), whole-instance assignment; redeclaration of both structs *)
+(* in between.  All histories up to MaxSteps.                              *)
 EXTENDS Records
 
 I64 == <<"base", "int64">>
